@@ -406,34 +406,34 @@ class StoreWorld:
         self.task = pairs[0][1]
         self.cond_id = f"cron_{cfg['expr']}"
         self.now = 0
-        self.model_last: int | None = None
-        self.restarted_since_fire = False
+        self.model_last: int | None = None   # last firing the evaluator knows of (follows the implementation
+        self.fired_ever = False               # after a reported, classified violation: see _store_unit)
         self.orc = Oracle(cfg["expr"], int(STORE_T0), STORE_HORIZON, cfg["window"], cfg["min_interval"],
                           cfg["strict"], cfg["tolerance"])
 
     def launched(self) -> int:
         return len(list(self.apps[0].orchestrator.get_task_invocation_ids(self.task.task_id)))
 
-    def apply(self, op: tuple) -> tuple:
-        """-> (observed launches, predicted launches) of this operation."""
+    def apply(self, op: tuple, observe: bool = True) -> tuple:
+        """-> (observed launches, predicted launches, stored last execution before the operation)."""
         env.CLOCK.frozen = True
         if op[0] == "restart":
             env.CLOCK.now = STORE_T0 + self.now
             before = self.launched()
             self.apps[op[1]], _ = _runner_app(self.backend, self.cfg, self.db)
-            self.restarted_since_fire = True
-            return self.launched() - before, 0
+            return self.launched() - before, 0, None
         _, gap, k = op
         self.now += gap
         env.CLOCK.now = STORE_T0 + self.now
+        stored_before = self.stored_last() if observe else None
         before = self.launched()
         self.apps[k].trigger.trigger_loop_iteration()
         observed = self.launched() - before
         predicted = 1 if self.orc.expect(self.now, self.model_last) else 0
-        if predicted:
+        if observed:  # the evaluator's "previous firing" is what really happened (also after a violation)
             self.model_last = self.now
-            self.restarted_since_fire = False
-        return observed, predicted
+            self.fired_ever = True
+        return observed, predicted, stored_before
 
     def _off(self, d: Any) -> Any:
         return None if d is None else round(d.timestamp() - STORE_T0, 6)
@@ -449,35 +449,48 @@ class StoreWorld:
         return (self.now, self.stored_last(), caches, pending, self.model_last)
 
 
-def _store_alphabet(backend: str, hist: list, now: int, restarts: int, max_restarts: int) -> list[tuple]:
+def _store_alphabet(backend: str, hist: list, now: int, restarts: int, cfg: dict) -> list[tuple]:
     ops: list[tuple] = []
-    pollers = (0,) if backend == env.MEM or not hist else (0, 1)  # the two runners are built alike: the first
-    for g in STORE_GAPS:                                          # poll is runner 0's (symmetry)
+    if backend == env.MEM or not hist:
+        pollers: tuple = (0,)  # the two runners are built alike: the first poll is runner 0's (symmetry)
+    elif cfg["pollers"] == "alternate":
+        pollers = (sum(1 for h in hist if h[0] == "poll") % 2,)
+    else:
+        pollers = (0, 1)
+    for g in cfg["gaps"]:
         if now + g <= STORE_HORIZON:
             ops.extend(("poll", g, k) for k in pollers)
-    if backend == env.SQLITE and restarts < max_restarts and hist and hist[-1][0] != "restart":
+    if backend == env.SQLITE and restarts < cfg["max_restarts"] and hist and hist[-1][0] != "restart":
         ops.append(("restart", 1))
     return ops
 
 
-def _store_violation(w: StoreWorld, op: tuple, observed: int, predicted: int, stored_before: Any) -> tuple:
+def _store_violation(w: StoreWorld, op: tuple, observed: int, predicted: int, stored_before: Any,
+                     fired_before: bool) -> tuple:
+    """-> (signature, detail, classified).  Two causes are recognised by what was stored when the poll began."""
+    m = w.orc.latest(w.now)
     if observed > predicted:
-        clause = "launched-without-a-due-tick" if w.orc.latest(w.now) is None or not (
-            0 <= w.now - w.orc.latest(w.now) <= w.orc.limit) else "scheduled-minute-launched-twice"
+        due = m is not None and 0 <= w.now - m <= w.orc.limit
+        clause = "scheduled-minute-launched-twice" if due and observed == 1 else (
+            "launched-without-a-due-tick" if observed == 1 else f"poll-launched-{observed}")
     else:
         clause = "due-tick-not-launched"
     sig = {"clause": clause, "part": "store", "backend": w.backend, "config": w.cfg["name"], "op": op[0]}
-    if clause == "scheduled-minute-launched-twice" and w.restarted_since_fire and stored_before is None:
-        sig = {"clause": clause, "part": "store", "backend": w.backend,
-               "cause": "registration-of-a-restarting-runner-erased-the-stored-last-execution"}
+    classified = False
+    if observed == 1 and predicted == 0 and op[0] == "poll" and stored_before is None:
+        classified = True
+        cause = ("stored-last-execution-erased-by-a-restarting-runner's-registration" if fired_before
+                 else "nothing-stored-yet:schedule-not-evaluated")
+        sig = {"clause": clause, "part": "store", "backend": w.backend, "cause": cause}
     return sig, {"observed_launches": observed, "predicted": predicted, "now": w.now,
-                 "latest_scheduled": w.orc.latest(w.now), "model_last_firing": w.model_last,
-                 "stored_last_before_poll": stored_before, "config": w.cfg}
+                 "now_utc": _dt(STORE_T0 + w.now).isoformat(), "latest_scheduled": m,
+                 "evaluator_last_firing": w.model_last, "stored_last_before_poll": stored_before,
+                 "config": w.cfg}, classified
 
 
 def _store_unit(item: tuple) -> Partial:
-    backend, name, max_restarts = item
-    cfg = dict(STORE_CFGS[name], name=name)
+    backend, name, tier_cfg = item
+    cfg = dict(STORE_CFGS[name], name=name, **tier_cfg)
     p = Partial()
     try:
         w = StoreWorld(backend, cfg)
@@ -488,25 +501,28 @@ def _store_unit(item: tuple) -> Partial:
         while frontier:
             nxt = []
             for hist, now, restarts in frontier:
-                for op in _store_alphabet(backend, hist, now, restarts, max_restarts):
+                for op in _store_alphabet(backend, hist, now, restarts, cfg):
                     w = StoreWorld(backend, cfg)
                     for h in hist:
-                        w.apply(h)
-                    stored_before = w.stored_last()
-                    observed, predicted = w.apply(op)
+                        w.apply(h, observe=False)
+                    fired_before = w.fired_ever
+                    observed, predicted, stored_before = w.apply(op)
                     p.count("transitions")
                     p.count("traces_validated_against_impl")
                     p.count("store_polls" if op[0] == "poll" else "store_restarts")
                     p.count("store_launches", observed)
                     if observed != predicted:
-                        sig, detail = _store_violation(w, op, observed, predicted, stored_before)
+                        sig, detail, classified = _store_violation(w, op, observed, predicted, stored_before,
+                                                                   fired_before)
                         k = repr(sorted(sig.items()))
                         if k not in reported:
                             reported.add(k)
                             detail["history"] = hist + [op]
                             p.violation(sig, detail, {"kind": "store", "part": PART, "backend": backend,
-                                                      "config": name, "history": hist + [op]})
-                        continue  # a state behind a violation is not expanded
+                                                      "config": name, "tier_cfg": tier_cfg, "history": hist + [op]})
+                        p.count("store_polls_violating")
+                        if not classified:
+                            continue  # only states behind a violation of a recognised cause are expanded
                     d = w.dump()
                     if d not in seen:
                         seen.add(d)
@@ -523,15 +539,15 @@ def _store_unit(item: tuple) -> Partial:
 
 
 def _replay_store(r: dict) -> bool:
-    cfg = dict(STORE_CFGS[r["config"]], name=r["config"])
+    cfg = dict(STORE_CFGS[r["config"]], name=r["config"], **r["tier_cfg"])
     bad = False
     try:
         w = StoreWorld(r["backend"], cfg)
         for op in r["history"]:
-            stored_before = w.stored_last()
-            observed, predicted = w.apply(tuple(op))
+            fired_before = w.fired_ever
+            observed, predicted, stored_before = w.apply(tuple(op))
             if observed != predicted:
-                print("  replayed:", _store_violation(w, tuple(op), observed, predicted, stored_before)[0])
+                print("  replayed:", _store_violation(w, tuple(op), observed, predicted, stored_before, fired_before)[0])
                 bad = True
     finally:
         env.CLOCK.frozen = False
@@ -551,7 +567,8 @@ def run_part(ctx: Ctx) -> None:
             ctx.merge(part)
     if not only or "store" in only:
         names = list(STORE_CFGS) if ctx.thorough else ["every2-default", "list-w60-i70"]
-        sitems = [(b, n, 1) for n in names for b in (env.SQLITE, env.MEM)]
+        tier_cfg = dict(gaps=list(STORE_GAPS), max_restarts=1, pollers="any" if ctx.thorough else "alternate")
+        sitems = [(b, n, tier_cfg) for n in names for b in (env.SQLITE, env.MEM)]
         for part in par.pmap(_store_unit, sitems):
             ctx.merge(part)
     ctx.rule = "cron"
